@@ -529,12 +529,17 @@ def desugar_unknown_enumerate(fn, known_sigs):
     done = []
     sg, _ = signatures(fn)
     for lp in [n for n in ast.walk(fn) if isinstance(n, ast.For)]:
-        if not (isinstance(lp.iter, ast.Call) and isinstance(lp.iter.func, ast.Name) and lp.iter.func.id == 'enumerate'
-                and len(lp.iter.args) == 1 and not lp.iter.keywords and isinstance(lp.target, ast.Tuple) and len(lp.target.elts) == 2
-                and all(isinstance(e, ast.Name) for e in lp.target.elts)):
+        if not (isinstance(lp.iter, ast.Call) and isinstance(lp.iter.func, ast.Name) and not lp.iter.keywords
+                and isinstance(lp.target, ast.Tuple) and len(lp.target.elts) == 2 and all(isinstance(e, ast.Name) for e in lp.target.elts)):
+            continue
+        if lp.iter.func.id == 'enumerate' and len(lp.iter.args) == 1:
+            A = lp.iter.args[0]
+        elif lp.iter.func.id == 'zip' and len(lp.iter.args) == 2 and ast.unparse(lp.iter.args[0]).replace(' ', '') in (
+                'range(len(%s))' % ast.unparse(lp.iter.args[1]).replace(' ', ''), 'range(%s.shape[0])' % ast.unparse(lp.iter.args[1]).replace(' ', '')):
+            A = lp.iter.args[1]             # zip(range(len(A)), A) pairs every item with its index, like enumerate(A)
+        else:
             continue
         i, x = lp.target.elts[0].id, lp.target.elts[1].id
-        A = lp.iter.args[0]
         if not isinstance(A, (ast.Name, ast.Attribute)) or not _pure(A):
             continue
         if x not in sg or sg[x][0] in known_sigs:
@@ -691,6 +696,10 @@ def normalise(rel, tree, kwnames=frozenset()):
             ast.fix_missing_locations(fn)
             applied.append((qual, {t: '(enumerate loop read as an index loop)' for t in en}))
         inl = inline_unknown_temporaries(fn, known, {x for d, k, x in ref['locals']})
+        en2 = desugar_unknown_enumerate(fn, known)         # forms that only appear once a temporary (n = len(A)) was read back
+        if en2:
+            ast.fix_missing_locations(fn)
+            applied.append((qual, {t: '(zip / enumerate loop read as an index loop)' for t in en2}))
         if inl:
             ast.fix_missing_locations(fn)
             applied.append((qual, {t: '(inlined temporary)' for t in inl}))
